@@ -133,7 +133,7 @@ func (g *Gen) globalPtr(gl *ssa.Global) *Val {
 	}
 	if kindOf(et) == KArray {
 		at := et.Underlying().(*types.Array)
-		return &Val{K: KArrPtr, T: gl.Type(), Arr: "(- " + name + ")", N: at.Len()}
+		return &Val{K: KArrPtr, T: gl.Type(), Arr: name, N: at.Len()}
 	}
 	return &Val{K: KPtr, T: gl.Type(), S: name}
 }
@@ -238,14 +238,22 @@ func (g *Gen) store(st *State, p *Val, v *Val, pos token.Pos, text string) {
 		g.storeAt(st, p.HName, deref(p.T), p.Base, v)
 	case KElemPtr:
 		if p.Arr == "tbl" {
+			if g.isPkgInit() {
+				return // the table's contents are read from this very initialiser's literal
+			}
 			unsup("store into constant table")
 		}
 		g.frameStore(st, p, pos, text)
-		g.assume(st.reach, "(<= 0 "+p.Arr+")") // string-constant memory is never written (a fault; excluded by C12)
+		if isByteElem(deref(p.T)) {
+			g.assume(st.reach, "(<= 0 "+p.Arr+")")
+		} // string-constant memory is never written (a fault; excluded by C12)
 		g.storeElem(st, deref(p.T), p.Arr, p.Idx, v)
 	case KArrPtr:
 		at := deref(p.T).Underlying().(*types.Array)
 		if p.Arr == "tbl" {
+			if g.isPkgInit() {
+				return
+			}
 			unsup("store into constant table")
 		}
 		g.frameStore(st, p, pos, text)
@@ -388,6 +396,9 @@ func (g *Gen) doAlloc(st *State, a *ssa.Alloc) {
 }
 
 func (g *Gen) doUnOp(st *State, x *ssa.UnOp) *Val {
+	if gl, ok := x.X.(*ssa.Global); ok && gl.Name() == "init$guard" && g.isPkgInit() {
+		return &Val{K: KBool, T: x.Type(), S: "false"} // the runtime runs a package initialiser exactly once
+	}
 	v := g.val(st, x.X)
 	switch x.Op {
 	case token.MUL:
@@ -1021,4 +1032,9 @@ func within(flo, fhi, tlo, thi string) bool {
 	c, ok3 := p(tlo)
 	d, ok4 := p(thi)
 	return ok1 && ok2 && ok3 && ok4 && a >= c && b <= d
+}
+
+
+func (g *Gen) isPkgInit() bool {
+	return g.fn.Name() == "init" && g.fn.Synthetic != "" && g.fn.Parent() == nil
 }
